@@ -23,6 +23,24 @@ func (b *embeddedBackend) Close() error {
 	return nil
 }
 
+// maxTxnRetries bounds how often a read-modify-write command is re-executed
+// after losing a write-write race with another client.
+const maxTxnRetries = 64
+
+// update runs fn in a read-write transaction and re-executes it (on a fresh
+// snapshot) when the commit is refused because a key it read was changed
+// concurrently. Redis commands never fail with a conflict, so the retry belongs
+// here and not in the client.
+func (b *embeddedBackend) update(fn func(txn *NoKV.Txn) error) error {
+	var err error
+	for range maxTxnRetries {
+		if err = b.db.Update(fn); !errors.Is(err, utils.ErrConflict) {
+			return err
+		}
+	}
+	return err
+}
+
 func (b *embeddedBackend) Get(key []byte) (*redisValue, error) {
 	entry, err := b.db.Get(key)
 	if err != nil {
@@ -50,7 +68,7 @@ func (b *embeddedBackend) Set(args setArgs) (bool, error) {
 	if args.NX || args.XX {
 		// Guard the condition check and write inside a single transaction to keep the
 		// Redis semantics (read + write must be atomic).
-		err := b.db.Update(func(txn *NoKV.Txn) error {
+		err := b.update(func(txn *NoKV.Txn) error {
 			exists := false
 			item, err := txn.Get(args.Key)
 			switch {
@@ -102,7 +120,8 @@ func (b *embeddedBackend) Del(keys [][]byte) (int64, error) {
 	var removed int64
 	// Execute deletes for all keys inside a single transaction so the removal
 	// count matches the snapshot used for the writes.
-	err := b.db.Update(func(txn *NoKV.Txn) error {
+	err := b.update(func(txn *NoKV.Txn) error {
+		removed = 0 // the closure may run again after a conflict
 		for _, key := range keys {
 			item, err := txn.Get(key)
 			switch {
@@ -217,7 +236,7 @@ func (b *embeddedBackend) Exists(keys [][]byte) (int64, error) {
 
 func (b *embeddedBackend) IncrBy(key []byte, delta int64) (int64, error) {
 	var result int64
-	err := b.db.Update(func(txn *NoKV.Txn) error {
+	err := b.update(func(txn *NoKV.Txn) error {
 		var (
 			current  int64
 			expires  uint64
